@@ -8,6 +8,7 @@
   `realpath`; an entry that would land anywhere but strictly below the install directory is the verdict `escaped`.
 -/
 import Kapture.Lemmas.C18
+import Kapture.Gen.IoShapes
 
 namespace Kapture.C18
 
@@ -40,6 +41,13 @@ theorem untar_never_escapes (dest : Path) (ms : List Member) :
 -- model touches the tree
 example : placeMember ["inst"] [] [] { kind := Kind.file, name := "d/x", linkname := "", content := 1 } ["d", "x"]
     = Verdict.ok [(["d"], Node.dir), (["d", "x"], Node.file 1)] := by decide +kernel
+
+/-- the model's assumptions about the code of untar_file are what the translator reads in the source on every run
+  (Gen/IoShapes.lean): every member name goes through the `..` guard before extraction, the extraction filter is `data`,
+  and attributes are not applied (`set_attrs=False`: modes come from the umask, owner read/write) -/
+theorem untar_code_is_the_model :
+    Gen.IoShapes.untarDotDotGuard = true ∧ Gen.IoShapes.untarFilter = "data" ∧ Gen.IoShapes.untarSetAttrs = false := by
+  decide
 
 /-- why the `..` guard of untar_file is needed (the defect D29, as a theorem about the model): WITHOUT it the `data` filter
   accepts a name that leaves the install directory through a component that does not exist and comes back — the member
